@@ -104,7 +104,9 @@ def case_conservation(case):
         if Rimpl is not None:
             dev = np.abs(Rimpl - Rex)
             worst_c = max(worst_c, float(np.max(dev / np.maximum(Rex, np.sort(Rex)[1]))))
-            bad = np.where(~(dev <= allow + 1e-9 * abs(bg / qm) + (2e-5 * abs(bg / qm) if prec == "single" else 0)))[0]
+            # rounding of the stored field (relative to its own maximum) divided by a mean that may be small against that maximum
+            rnd = (2e-5 if prec == "single" else 1e-9) * float(np.abs(c).max()) / abs(qm)
+            bad = np.where(~(dev <= allow + rnd + 1e-9 * abs(bg / qm) + (2e-5 * abs(bg / qm) if prec == "single" else 0)))[0]
             if len(bad):
                 l = int(bad[0])
                 v.append({"sub": "conc-mean", "sig": "conservation/conc-mean",
